@@ -81,7 +81,7 @@ def machine(lines):
         midline = OFFM in s and not s.startswith(("/*", "//", "#")) and "/*" in s and s.find("/*") < s.find(OFFM) and ONM not in s
         sw_off = (not off) and (midline or (OFFM in s and s.startswith(("/*", "//")) and not (ONM in s and s.find(ONM) > s.find(OFFM)))
                                 or s.replace("# ", "#") == "#pragma asm" or s.replace("# ", "#") == "#asm")
-        sw_on = off and ((s.startswith(("/*", "//")) and ONM in s) or (s.startswith("#pragma") and s.split()[1:2] == ["endasm"]) or s.startswith("#endasm"))
+        sw_on = off and ((s.startswith(("/*", "//")) and ONM in s) or (ONM in s and "/*" in s[:s.find(ONM)] and "*/" in s[s.find(ONM):] and s.rstrip().endswith("*/")) or (s.startswith("#pragma") and s.split()[1:2] == ["endasm"]) or s.startswith("#endasm"))
         inreg = off and not sw_on
         for k in range(i, j + 1):
             res.append((off, inreg))
@@ -112,6 +112,14 @@ def regions(lines):
         prev_line = l
         if inreg:
             cur.append("" if l.strip(" \t") == "" else l)
+        elif off and cur is not None and ONM in l and not l.lstrip(" \t").startswith(("/*", "//", "#")) and "/*" in l[:l.find(ONM)]:
+            # the enabling marker comment behind region text on the same line (a deleted line break): the text in front is the region's
+            cur.append(l)
+    # the file ends with the line whose marker comment stands behind code: the region is the rest of that line
+    if lines and not prev_off and OFFM in prev_line and ONM not in prev_line and not prev_line.lstrip(" \t").startswith(("/*", "//", "#")) \
+            and "/*" in prev_line and prev_line.find("/*") < prev_line.find(OFFM) and "*/" in prev_line[prev_line.find(OFFM):]:
+        tail = prev_line[prev_line.find("*/", prev_line.find(OFFM)) + 2:]
+        regs.append([tail] if tail.strip(" \t") else [])
     return regs
 
 
@@ -164,7 +172,9 @@ def split(text):
 WRAPS = {
     "func": ("void w(void)\n{\n", "}\n"),
     "enum": ("enum E\n{\n    E1,\n", "    E9\n};\n"),
+    "enumlast": ("enum E\n{\n    E1,\n", "};\n"),
     "init": ("int t[] =\n{\n    1,\n", "    9\n};\n"),
+    "initlast": ("int t[] =\n{\n    1,\n", "};\n"),
     "struct": ("struct S\n{\n    int m1;\n", "    int m9;\n};\n"),
     "args": ("void w(void)\n{\n    f(1,\n", "      9);\n}\n"),
     "ifbody": ("void w(int a)\n{\n    if (a)\n", "    a++;\n}\n"),
@@ -177,7 +187,7 @@ def wrap_name(wrap, lang):
         return ""
     if wrap is True:
         return "func"
-    if lang in ("JAVA", "CS") and wrap in ("init", "struct", "enum"):
+    if lang in ("JAVA", "CS") and wrap in ("init", "struct", "enum", "enumlast", "initlast"):
         return "func"
     return wrap
 
@@ -324,7 +334,7 @@ def run(ctx):
             if lang in ("JAVA",) and any(k in ("pasm", "pend", "asm", "endasm") for k in kinds):
                 lang = "C"
             jobs.append((unc, tmp, len(jobs), kinds, cfgt, ctx.rng.randint(0, 3), ctx.rng.random() < 0.75, ctx.rng.randrange(1 << 30),
-                         ctx.rng.choice(["", "", "", "func", "func", "enum", "init", "struct", "args", "ifbody", "switch"]), lang))
+                         ctx.rng.choice(["", "", "", "func", "func", "enum", "enumlast", "init", "initlast", "struct", "args", "ifbody", "switch"]), lang))
     res = pmap_proc(_job, jobs, nproc=14)
     evs = [e for r_, meta in res for e in r_]
     metas = {}
@@ -359,6 +369,14 @@ def run(ctx):
 
                     def edge_blank_only(rg_):
                         a_, b_ = list(rg_["i"]), [x for x in rg_["o"] if x != "<missing>"]
+                        # the line break in front of the enabling marker comment is an edge line break as well: when it is
+                        # deleted the marker stands behind the region's last line
+                        for q, x in enumerate(b_):
+                            if ONM in x and "/*" in x[:x.find(ONM)]:
+                                pre = x[:x.rfind("/*", 0, x.find(ONM))]
+                                for y in a_:
+                                    if y != "" and pre.rstrip(" \t") == y.rstrip(" \t"):
+                                        b_[q] = y
                         while a_ and a_[0] == "":
                             a_.pop(0)
                         while b_ and b_[0] == "":
